@@ -110,3 +110,84 @@ def step {V} (depth : Nat) (s : St V) : Ev V → St V
 def run {V} (depth : Nat) (es : List (Ev V)) : St V := es.foldl (step depth) {}
 
 end SFV.Gather
+
+namespace SFV.Gather
+
+/-! ### `ScatterStep.run` (and `ScatterStep.restore` with its `FilterTokenPort`) -/
+
+/-- what the scatter step takes from its input port / is told by the recovery machinery -/
+inductive SIn (V : Type) where
+  | list (tag : Tag) (xs : List V)       -- a `ListToken`
+  | other (tag : Tag)                    -- any other token: `_scatter` raises WorkflowDefinitionException
+  | term (st : Status)                   -- the port's `TerminationToken`
+  | restore (valid : List Tag)           -- `restore(on_tokens)`: the output port becomes a `FilterTokenPort` for these tags
+deriving Repr
+
+structure SSt (V : Type) where
+  elems : List (Tok V) := []             -- log of the element output port
+  sizes : List (Tag × Nat) := []         -- log of the `__size__` port
+  filter : Option (List Tag) := none     -- `valid_tags` of the FilterTokenPort installed by `restore`
+  terminated : Option Status := none     -- termination token put on both output ports
+  raised : Bool := false                 -- `run` ended with an exception (nothing is terminated)
+
+/-- `FilterTokenPort.put` for a data token -/
+def passes {V} (filter : Option (List Tag)) (t : Tok V) : Bool :=
+  match filter with
+  | none => true
+  | some valid => decide (t.tag ∈ valid)
+
+def sstep {V} (s : SSt V) : SIn V → SSt V
+  | .restore valid =>
+      -- the tokens already on the old port are re-put through the filter of the new one
+      { s with filter := some valid, elems := s.elems.filter (passes (some valid)) }
+  | e =>
+      if s.terminated.isSome || s.raised then s else
+      match e with
+      | .list tag xs =>
+          { s with elems := s.elems ++ ((scatter tag xs).1.filter (passes s.filter)), sizes := s.sizes ++ [(scatter tag xs).2] }
+      | .other _ => { s with raised := true }
+      | .term st => { s with terminated := some (getStatus st (s.elems.isEmpty || s.sizes.isEmpty)) }   -- status = token.value
+      | .restore _ => s
+
+def srun {V} (es : List (SIn V)) : SSt V := es.foldl sstep {}
+
+end SFV.Gather
+
+namespace SFV.Gather
+
+/-! ### provenance recorded by `_gather` (`input_token_ids = [size_map[key], *token_map[key]]`) -/
+
+/-- the tokens a gathered list is declared to depend on: the size token of its key (`true` = it is the size token received,
+    `false` = the one synthesised by the forced gathering) and the element tokens of the key in arrival order -/
+structure Prov (V : Type) where
+  key : Tag
+  sizeReceived : Bool
+  elems : List (Tok V)
+
+/-- provenance of the list tokens emitted by one more event: `_gather(key)` reads `token_map[key]` and `size_map[key]` as they
+    are at that moment; neither changes for `key` within the same event -/
+def provOfStep {V} (depth : Nat) (s : St V) (e : Ev V) : List (Prov V) :=
+  let s' := step depth s e
+  let forced := match e with | .term _ _ => true | _ => false
+  (s'.out.drop s.out.length).map (fun o => ⟨o.1, !forced, s'.toks o.1⟩)
+
+def runProv {V} (depth : Nat) : St V → List (Ev V) → List (Prov V)
+  | _, [] => []
+  | s, e :: es => provOfStep depth s e ++ runProv depth (step depth s e) es
+
+end SFV.Gather
+
+namespace SFV.Gather
+
+/-- provenance recorded by `_scatter` (`input_token_ids = get_entity_ids([token])`): every element and the size token emitted while
+    the `k`-th event is processed depend on that event's list token. Returns (tag of the emitted token, is it the size token, k). -/
+def srunProv {V} : Nat → SSt V → List (SIn V) → List (Tag × Bool × Nat)
+  | _, _, [] => []
+  | k, s, e :: es =>
+      let s' := sstep s e
+      let isRestore := match e with | .restore _ => true | _ => false
+      (if isRestore then [] else
+        ((s'.elems.drop s.elems.length).map (fun t => (t.tag, false, k)) ++ (s'.sizes.drop s.sizes.length).map (fun z => (z.1, true, k))))
+      ++ srunProv (k + 1) s' es
+
+end SFV.Gather
